@@ -136,6 +136,8 @@ def ops():
     lazy("hamming_neighbors", lambda: ((lambda x, p: sorted(prs.hamming_neighbors(x, variable_positions=p))), ("AAC", [0, 2]), {}))
     lazy("next_nearest_neighbors", lambda: ((lambda x: sorted(prs.next_nearest_neighbors(x, lambda y: prs.hamming_neighbors(y, "AC")))), ("AAC",), {}))
     lazy("find_neighbor_pairs", lambda: (prs.find_neighbor_pairs, (list(SEQS),), {}))
+    lazy("find_neighbor_pairs-set", lambda: (prs.find_neighbor_pairs, (set(SEQS),), {}))
+    lazy("calculate_neighbor_numbers-set-reference", lambda: (prs.calculate_neighbor_numbers, (list(SEQS),), {"reference": set(SEQS2) | {"CASSF"}}))
     lazy("find_neighbor_pairs_index", lambda: (prs.find_neighbor_pairs_index, (list(dict.fromkeys(SEQS)),), {}))
     lazy("calculate_neighbor_numbers", lambda: (prs.calculate_neighbor_numbers, (list(SEQS),), {}))
     lazy("isdist1", lambda: (prs.isdist1, ("CASSW", set(SEQS)), {}))
@@ -188,6 +190,8 @@ def ops():
     lazy("similarity_clustermap-norm", lambda: (P.similarity_clustermap, (_cm_df(),), {"norm": __import__("matplotlib").colors.Normalize(0, 5), "alpha_column": None}), seed=29)
     lazy("similarity_clustermap-cbar_kws", lambda: (P.similarity_clustermap, (_cm_df(),), {"cbar_kws": {"label": "d", "orientation": "horizontal"}, "meta_columns": ["meta"], "bounds": np.arange(0, 5, 1)}), seed=29)
     lazy("seqlogos", lambda: (P.seqlogos, (["CAS", "CAT", "CWT"],), {"ax": fig_ax()}))
+    lazy("seqlogos-styled", lambda: (P.seqlogos, (["CAS", "CAT", "CWT"],), {"ax": fig_ax(), "color_scheme": "hydrophobicity", "stack_order": "small_on_top"}))
+    lazy("seqlogos_vj-styled", lambda: (P.seqlogos_vj, (pd.DataFrame({"c": ["CAS", "CAT"], "v": ["TRBV1", "TRBV2"], "j": ["TRBJ1", "TRBJ1"]}), "c", "v", "j"), {"color_scheme": "charge"}))
     lazy("density_scatter-discrete", lambda: (P.density_scatter, ([0, 1, 0, 1, 1], [0, 1, 0, 0, 1]), {"ax": fig_ax(), "discrete": True}))
     lazy("density_scatter-binned", lambda: (P.density_scatter, (np.linspace(0, 1, 30), np.linspace(0, 1, 30) ** 2), {"ax": fig_ax(), "bins": 4}))
     lazy("label_axes", lambda: (P.label_axes, ([fig_ax(), fig_ax()],), {"labels": "xy"}))
